@@ -109,7 +109,12 @@ class OpsMixin:
             # the SQL replica now goes through a sub-query: its row order is no longer defined
             # (DESIGN.md section 4.2), so the replicas are compared as multisets from here on
             new_m.order_fixed = False
-        d = self.after_produce(pt, step, inputs)
+        try:
+            d = self.after_produce(pt, step, inputs)
+        except Skip:
+            # the model could not follow the library here: the table is not used any further
+            self.tables.pop(new_id, None)
+            raise
         self.emit(step, "ok", d)
         return pt
 
